@@ -720,6 +720,35 @@ func crossFamilies(tier string, full bool) []*family {
 		tag = "+"
 	}
 
+	// x2/FF: a two-directory Rename / Link ONTO AN EXISTING entry. Lesson: a call
+	// with two operands consults two directories, and each rule belongs to one of
+	// them - the sticky bit of the SOURCE directory protects the entry that is
+	// moved away, the sticky bit of the DESTINATION directory protects the entry
+	// that is replaced (rename(2): may_delete on each side). When both names are
+	// in one directory, or when the two directories get the same attributes, or
+	// when only one of them is varied, code that asks the wrong directory cannot
+	// be told from code that asks the right one. So the attributes of the two
+	// directories are enumerated INDEPENDENTLY (full product: owner x rwx x
+	// special bits of p, times the same of q - exactly one sticky, both, none;
+	// each owned by the caller, by another user, by root), and so are the owners
+	// of the two entries (the moved one and the replaced one: the caller's,
+	// somebody else's, root's, independently), since "owns the entry" lifts the
+	// sticky restriction per entry. The replaced entry missing is shape x2/F.
+	// The kernel gives the answer; the trees are compared after the call (a
+	// refused Rename must leave the victim's content and owner).
+	op, oq := p, q
+	oe := dom{0, -1, 0} // entries: owner in {actor, other user, root}, mode fixed
+
+	if !full {
+		oq = dom{0, 0, 1} // quick: both directories none / sticky
+	} else {
+		// thorough: 8 rwx values (the sticky decision needs w+x on both; the other
+		// classes' bits take no part), none / sticky / setgid on both, entries with
+		// the foreign-group owner as well
+		op, oq = dom{0, 0, 2}, dom{0, 0, 2}
+		oe = dom{1, -1, 0}
+	}
+
 	return []*family{
 		{
 			ID: "x2/F" + tag, Depth: 2, Leaf: "p/n", LeafKind: "F",
@@ -734,6 +763,14 @@ func crossFamilies(tier string, full bool) []*family {
 			Nodes: []nodeT{{"p", "p", "D", p}, {"q", "q", "D", qd}, {"leaf", "p/n", "D", ld}},
 			Calls: []callT{
 				{Op: "Rename", Variant: "crossdir", Dest: "q/b", Umask: um},
+			},
+		},
+		{
+			ID: "x2/FF" + tag, Depth: 2, Leaf: "p/n", LeafKind: "F",
+			Nodes: []nodeT{{"p", "p", "D", op}, {"q", "q", "D", oq}, {"leaf", "p/n", "F", oe}, {"b", "q/b", "F", oe}},
+			Calls: []callT{
+				{Op: "Link", Variant: "crossdir-onto", Dest: "q/b", Umask: um},
+				{Op: "Rename", Variant: "crossdir-onto", Dest: "q/b", Umask: um},
 			},
 		},
 	}
